@@ -230,6 +230,8 @@ def search_failing_input(prop: Prop, case: dict, rng: random.Random, budget: int
 
 def run_check(prop: Prop, tier: str, seed: int, replay: str | None = None) -> int:
     rep = Report(prop, tier, seed)
+    for old in (VERIF / "replays").glob(f"{prop.id}-{seed}-*.json"):
+        old.unlink()          # replay files always belong to the run that wrote them
     rng = random.Random(seed * 1000003 + int(prop.id[1:]))
     audit = lean_audit(prop.id)
     driver = common.Driver()
